@@ -466,6 +466,7 @@ class Explorer:
             if len(who) > 1 and rel not in self.shared_tmp:
                 self.shared_tmp.add(rel)
                 self.fp_grew = True          # explore again with this path as a shared object
+                self.tmp_changed = True
         rec = {"outcome": outcome, "results": results, "final": final_abs, "junk": junk,
                "facts": facts, "raw": raw if record else None,
                "locks": locks, "schedule": list(sched_taken), "pending": pend,
@@ -490,6 +491,7 @@ class Explorer:
         while True:
             self.passes += 1
             self.fp_grew = False
+            self.tmp_changed = False
             self.visited = set()
             self.outcomes = {}
             self._explore_once()
@@ -507,6 +509,8 @@ class Explorer:
                 break
             prefix = stack.pop()
             rec = self.execute(prefix, stack)
+            if getattr(self, "tmp_changed", False):
+                return            # the set of scheduling objects changed: start the pass again
             if rec["outcome"] in ("done", "deadlock"):
                 k = _json({"o": rec["outcome"], "r": rec["results"], "f": rec["final"],
                            "l": rec["locks"], "facts": rec["facts"]})
